@@ -39,7 +39,7 @@ const (
 var rfNames = []string{"none", "bitflip", "truncate+close", "truncate+fix-length", "extend", "length-field+n", "drop", "duplicate", "swap-adjacent", "replay-earlier", "cross-direction-inject", "header-type", "header-version", "fin-before-record", "fin-mid-header", "cross-connection-inject"}
 
 var attackFaults = rfNames[1:]
-var attackReach = []string{"fault-on-finished", "fault-on-appdata", "fault-on-close-notify", "fatal-alert-seen", "eof-style-end", "exact-prefix-checked", "sticky-error-checked", "gm-cbc", "gm-gcm", "tls-path", "no-fault-fired", "nonce-audit", "header-bit", "iv-or-nonce-bit", "body-bit", "mac-or-tag-bit", "sweep-run"}
+var attackReach = []string{"fault-on-finished", "fault-on-appdata", "fault-on-close-notify", "fatal-alert-seen", "eof-style-end", "exact-prefix-checked", "sticky-error-checked", "gm-cbc", "gm-gcm", "tls-path", "no-fault-fired", "nonce-audit", "header-bit", "iv-or-nonce-bit", "body-bit", "mac-or-tag-bit", "sweep-run", "long-session", "replay-at-distance>=255"}
 
 func init() {
 	register(Family{Name: "tls-record-attack", Prop: "C07", ID: 701, Weight: 2, FaultNames: attackFaults, ReachNames: attackReach, Run: runRecordAttack})
@@ -47,13 +47,14 @@ func init() {
 }
 
 type recFault struct {
-	Kind int
-	Dir  int // 0 = client->server, 1 = server->client
-	Rec  int // index among the protected records of that direction (0 = Finished)
-	Bit  int
-	N    int
-	J    int
-	Val  int
+	Kind  int
+	Dir   int // 0 = client->server, 1 = server->client
+	Rec   int // index among the protected records of that direction (0 = Finished)
+	Bit   int
+	N     int
+	J     int
+	JDist int // replay-earlier: distance back from the target record (0 = use J)
+	Val   int
 	// Exact: positions beyond the record are no-ops (enumerated sweep) instead
 	// of being reduced modulo the record size (sampled attacks).
 	Exact bool
@@ -71,6 +72,7 @@ type attackSession struct {
 	EntC     uint64
 	EntS     uint64
 	DynOn    bool // dynamic record sizing left enabled (many small records per Write)
+	Long     bool // several hundred small records in one direction (sequence numbers beyond one byte)
 }
 
 func drawAttackSession(c *simkit.Choice, small bool) attackSession {
@@ -94,15 +96,25 @@ func drawAttackSession(c *simkit.Choice, small bool) attackSession {
 			a.TLSVers, a.TLSSuite = 0, 0
 		}
 	}
+	longDir := -1
+	if !small && c.Bool(1, 10, simkit.LScen) {
+		a.Long = true
+		longDir = c.Choose(2, simkit.LScen)
+	}
 	for d := 0; d < 2; d++ {
 		nw := c.Range(1, 4, simkit.LScen)
 		if small {
 			nw = c.Range(1, 2, simkit.LScen)
 		}
+		if d == longDir {
+			nw = c.Range(130, 700, simkit.LScen)
+		}
 		total := 0
 		for i := 0; i < nw; i++ {
 			var n int
-			if small {
+			if d == longDir {
+				n = c.Range(1, 3, simkit.LScen)
+			} else if small {
 				n = c.Range(1, 40, simkit.LScen) // records stay <= 128 bytes
 			} else {
 				switch c.Weighted([]int{3, 3, 1, 1}, simkit.LScen) {
@@ -152,7 +164,7 @@ func drawRecFault(c *simkit.Choice, a *attackSession) recFault {
 			maxRec += w / 16384
 		}
 	}
-	if maxRec > 40 {
+	if maxRec > 40 && !a.Long {
 		maxRec = 40
 	}
 	if a.Suite == gmtls.GMTLS_ECC_SM4_CBC_SM3 || (a.TLSVers != 0 && a.TLSVers <= gmtls.VersionTLS10) {
@@ -165,6 +177,14 @@ func drawRecFault(c *simkit.Choice, a *attackSession) recFault {
 	f.Bit = c.Choose(1<<20, simkit.LFault)
 	f.N = 1 + c.Choose(64, simkit.LFault)
 	f.J = c.Choose(8, simkit.LFault)
+	if a.Long {
+		// any earlier record, with some weight on distances around the byte
+		// boundaries of the sequence counter
+		f.J = c.Choose(1<<11, simkit.LFault)
+		if c.Bool(1, 2, simkit.LFault) {
+			f.JDist = []int{1, 2, 127, 128, 255, 256, 257, 510, 511, 512}[c.Choose(10, simkit.LFault)]
+		}
+	}
 	f.Val = c.Choose(256, simkit.LFault)
 	return f
 }
@@ -350,6 +370,9 @@ func (rl *relay) apply(rec []byte, idx int) bool {
 			return false
 		}
 		old := rl.prot[f.J%idx]
+		if f.JDist > 0 && f.JDist <= idx {
+			old = rl.prot[idx-f.JDist]
+		}
 		fire(idx)
 		rl.dst.Write(old)
 		rl.dst.Write(rec)
@@ -663,6 +686,16 @@ func runAttack(c *simkit.Choice, r *simkit.Rec, a *attackSession, f *recFault, s
 				r.Violate("nonce-audit", suiteName, err.Error())
 				return
 			}
+			// the capture is taken at the sender, before the attacker: every record an
+			// endpoint wrote must authenticate under the independently derived keys and
+			// the independently counted sequence number
+			if sess.Stopped[d] != "" {
+				r.Violate("wire", suiteName, fmt.Sprintf("direction %d as sent by the endpoint: %s under the independently derived keys and sequence numbers (%d records decoded)", d, sess.Stopped[d], len(sess.Recs[d])))
+				return
+			}
+		}
+		if a.Long {
+			r.Reach(idx(attackReach, "long-session"))
 		}
 		r.Reach(idx(attackReach, "nonce-audit"))
 		pi := 0
